@@ -311,7 +311,7 @@ func TestCheck(t *testing.T) {
 	if engine.Thorough() {
 		b = 3
 	}
-	q, th := 40*time.Second, 8*time.Minute
+	q, th := 40*time.Second, 3*time.Minute
 	sched("R1-demux", 1, p3, r1, b, engine.Budget(q, th))
 	sched("R2-namespaces", 1, p3, r2, b, engine.Budget(q, th))
 	sched("R3-dup-identical", 1, p3, r3(0), b, engine.Budget(q, th))
@@ -329,11 +329,11 @@ func TestCheck(t *testing.T) {
 	if engine.Thorough() {
 		eb = 2
 	}
-	engine.Explore(func(x *engine.X) { e1(x, 3) }, engine.Opts{Name: "E1-echo-n3", DevBound: eb, Serial: true, Procs: 16, Engine: "SCHED", Budget: engine.Budget(60*time.Second, 15*time.Minute)})
-	engine.Explore(func(x *engine.X) { p1Session(x, []sharing.ID{1, 2}) }, engine.Opts{Name: "P1-session-n2", DevBound: 2 + eb, Serial: true, Procs: 16, Engine: "SCHED", Budget: engine.Budget(40*time.Second, 10*time.Minute)})
-	engine.Explore(func(x *engine.X) { p1Session(x, []sharing.ID{7, 3, 64}) }, engine.Opts{Name: "P1-session-n3", DevBound: 1 + eb, Serial: true, Procs: 16, Engine: "SCHED", Budget: engine.Budget(60*time.Second, 15*time.Minute)})
+	engine.Explore(func(x *engine.X) { e1(x, 3) }, engine.Opts{Name: "E1-echo-n3", DevBound: eb, Serial: true, Procs: 16, Engine: "SCHED", Budget: engine.Budget(100*time.Second, 8*time.Minute)})
+	engine.Explore(func(x *engine.X) { p1Session(x, []sharing.ID{1, 2}) }, engine.Opts{Name: "P1-session-n2", DevBound: 2 + eb, Serial: true, Procs: 16, Engine: "SCHED", Budget: engine.Budget(40*time.Second, 5*time.Minute)})
+	engine.Explore(func(x *engine.X) { p1Session(x, []sharing.ID{7, 3, 64}) }, engine.Opts{Name: "P1-session-n3", DevBound: 1 + eb, Serial: true, Procs: 16, Engine: "SCHED", Budget: engine.Budget(60*time.Second, 8*time.Minute)})
 	engine.Explore(racePass, engine.Opts{Name: "free-running-race-pass", Serial: true})
 	if engine.Thorough() {
-		engine.Explore(func(x *engine.X) { e1(x, 4) }, engine.Opts{Name: "E1-echo-n4", DevBound: 1, Serial: true, Procs: 16, Engine: "SCHED", Budget: 15 * time.Minute})
+		engine.Explore(func(x *engine.X) { e1(x, 4) }, engine.Opts{Name: "E1-echo-n4", DevBound: 1, Serial: true, Procs: 16, Engine: "SCHED", Budget: 6 * time.Minute})
 	}
 }
